@@ -7,7 +7,7 @@ decision table (a k-mer is found exactly when it is a key of the consulted end i
 table, both over an index layer whose ground truth is "this probe is / is not the end k-mer of a node": key-verified look-ups answer from
 it, keyless hashes may alias an absent probe to an arbitrary node (so every unconfirmed use shows as a phantom link); the crate's own
 threads, if any, are explored as explicit schedules (each spawned closure atomic, every order of the pending ones)."""
-from .. import dt_graph, structural
+from .. import dt_graph, structural, lemmas
 from . import common
 
 ASSUMPTIONS = ["boomphf's parallel builder returns a valid MPHF under every schedule (dependency code; its validity is the assumption "
@@ -23,3 +23,6 @@ def run(F, rep):
     rep.run(dt_graph.find_edges_table, F, rep, "C19.4")
     # the index keys are the terminal k-mers of the nodes: Vmer::get_kmer on views of the packed store
     rep.run(common.run_store_kmer_lemmas, F, rep, "C19.5")
+    # "perfect-hash lookup": the index is a minimal perfect hash over the terminal k-mers — it can only be built, and only answers exactly, if
+    # different k-mers feed the hasher different data
+    rep.run(lemmas.kmer_hash_lemmas, F, rep, "C19.6")
